@@ -66,7 +66,9 @@ func c06Seeds(rng *vk.Rand) []c06Seed {
 		}
 	}
 	var seeds []c06Seed
-	add := func(name string, d []byte, f []vField) { seeds = append(seeds, c06Seed{Name: name, data: d, fields: f}) }
+	add := func(name string, d []byte, f []vField) {
+		seeds = append(seeds, c06Seed{Name: name, data: d, fields: f})
+	}
 	d, f := vPilosaEncode([]vPilCont{{0, arr, containerArray}, {1, runs, containerRun}, {65536, big, containerBitmap}}, 1)
 	add("pilosa-arb", d, f)
 	d, f = vPilosaEncode([]vPilCont{{3, arr, containerArray}}, 0)
